@@ -152,10 +152,17 @@ func ruleR34_2(c *Check) {
 			continue
 		}
 		okv := false
-		for _, g := range gs {
-			if be, ok := g.Cond.(*ast.BinaryExpr); ok && !g.Implicit && g.Val && (be.Op == token.GEQ) && w.mentions(be.X, w.Func("y.WaterMark.DoneUntil")) {
-				okv = true
+		isMark := func(e ast.Expr) bool { return w.mentions(e, w.Func("y.WaterMark.DoneUntil")) || w.mentions(e, w.Field("y.WaterMark.doneUntil")) }
+		isIndex := func(e ast.Expr) bool {
+			id, ok := unparen(e).(*ast.Ident)
+			if !ok {
+				return false
 			}
+			v, ok := w.Use(id).(*types.Var)
+			return ok && isParam(f, v)
+		}
+		if op, _ := w.guardRel(gs, isMark, isIndex, true); op == token.GEQ {
+			okv = true
 		}
 		r.Check(okv, f, "fast path only when the mark already reached the index", rs, "WaitForMark returns early on a condition other than DoneUntil() >= index")
 	}
@@ -170,15 +177,9 @@ func ruleR34_2(c *Check) {
 			if id, isID := unparen(call.Fun).(*ast.Ident); isID && id.Name == "close" && len(call.Args) == 1 && w.fieldOf(call.Args[0]) == waiterFld {
 				closes++
 				okv := false
-				for _, g := range w.Guards(p, call) {
-					be, isB := g.Cond.(*ast.BinaryExpr)
-					if !isB || g.Implicit {
-						continue
-					}
-					l, rr := w.Origin(p, be.X), w.Origin(p, be.Y)
-					if be.Op == token.GEQ && g.Val && w.mentions(l, du) && w.fieldOf(rr) == idx {
-						okv = true
-					}
+				isMark := func(e ast.Expr) bool { return w.mentions(e, du) || w.mentions(e, w.Func("y.WaterMark.DoneUntil")) }
+				if op, _ := w.guardRel(w.Guards(p, call), isMark, w.isField(idx), true); op == token.GEQ {
+					okv = true
 				}
 				r.Check(okv, p, "waiter released at once iff doneUntil >= index", call, "immediate close of a waiter is not under `doneUntil >= mark.index`")
 			}
@@ -217,10 +218,9 @@ func ruleR34_2(c *Check) {
 		regs++
 		okv := w.fieldOf(ix.Index) == idx && w.mentions(as.Rhs[0], waiterFld)
 		neg := false
-		for _, g := range w.Guards(p, as) {
-			if be, isB := g.Cond.(*ast.BinaryExpr); isB && be.Op == token.GEQ && !g.Val && w.fieldOf(w.Origin(p, be.Y)) == idx {
-				neg = true
-			}
+		isMark2 := func(e ast.Expr) bool { return w.mentions(e, du) || w.mentions(e, w.Func("y.WaterMark.DoneUntil")) }
+		if op, _ := w.guardRel(w.Guards(p, as), isMark2, w.isField(idx), false); op == token.LSS {
+			neg = true
 		}
 		r.Check(okv && neg, p, "waiter registered under its index when the mark is below it", as, "registration is not `waiters[mark.index] = …waiter…` in the branch doneUntil < index")
 		return true
@@ -700,15 +700,9 @@ func ruleR11_3(c *Check) {
 				return true
 			}
 			at = as
-			for _, g := range w.Guards(own, as) {
-				be, isB := g.Cond.(*ast.BinaryExpr)
-				if !isB || !g.Val || be.Op != token.GTR {
-					continue
-				}
-				if w.isCallTo(w.Origin(own, be.X), parseTs) && w.fieldOf(be.Y) == fld {
-					if w.isCallTo(w.Origin(own, as.Rhs[0]), parseTs) {
-						ok = true
-					}
+			if op, _ := w.guardRel(w.Guards(own, as), w.isCallOf(parseTs), w.isField(fld), false); op == token.GTR {
+				if w.isCallTo(as.Rhs[0], parseTs) {
+					ok = true
 				}
 			}
 			return true
@@ -778,10 +772,8 @@ func ruleR11_4(c *Check) {
 			plus1 = v == 1
 		}
 		okg := false
-		for _, g := range w.Guards(own, as) {
-			if b2, ok := g.Cond.(*ast.BinaryExpr); ok && g.Val && (b2.Op == token.GEQ || b2.Op == token.GTR) && w.fieldOf(b2.X) == ver && w.fieldOf(b2.Y) == next {
-				okg = b2.Op == token.GEQ
-			}
+		if op, _ := w.guardRel(w.Guards(own, as), w.isField(ver), w.isField(next), false); op == token.GEQ {
+			okg = true
 		}
 		r.Check(plus1 && okg, own, "nextTxnTs raised above every loaded version", as, "Load does not maintain nextTxnTs = max(nextTxnTs, version+1)")
 		return true
@@ -802,10 +794,9 @@ func ruleR11_5(c *Check) {
 		if !ok || len(as.Lhs) != 1 || w.fieldOf(as.Lhs[0]) != mv {
 			return true
 		}
-		for _, g := range w.Guards(own, as) {
-			if be, ok := g.Cond.(*ast.BinaryExpr); ok && g.Val && (be.Op == token.LSS || be.Op == token.GTR) && (w.fieldOf(be.X) == mv || w.fieldOf(be.Y) == mv) {
-				okv = true
-			}
+		notMv := func(e ast.Expr) bool { return w.fieldOf(e) != mv }
+		if op, _ := w.guardRel(w.Guards(own, as), w.isField(mv), notMv, false); op == token.LSS || op == token.LEQ {
+			okv = true
 		}
 		return true
 	})
